@@ -48,7 +48,7 @@ def features(spec, sname):
                                m['prims'][0]['t'] for m in spec['moments']}),
             'partitions': sorted({len(v['partition']) for v in spec['xvars']}),
             'affine': sorted({v['mask'] is not None for v in spec['xvars']}),
-            'mode': spec['mode'], 'pieces': len(spec['pieces']),
+            'mode': spec['mode'], 'pieces': len(spec['pieces']), 'wass': bool(spec.get('wass')),
             'rows': sorted({('E' if r['expect'] else 'R') + r['sense'] for r in spec['rows']}),
             'solver': sname}
 
